@@ -34,6 +34,14 @@ static int sort_recipe(const std::string& job) {
             if (v != expect) { std::printf("REPRODUCED class=%s parallel_sort of %zu ints that are sorted except for one descent between positions %zu and %zu did not return them sorted\n", cls, n, p, p + 1); return 0; }
         }
     }
+    // inputs whose only descents lie behind a sorted prefix and that never rise again (plateaus, organ pipes): the parallel probe must still see a descent
+    for (size_t n : {500u, 777u, 2048u}) for (int shape = 0; shape < 3; ++shape) {
+        std::vector<int> v(n); for (size_t i = 0; i < 10; ++i) v[i] = 41 + (int)i;
+        for (size_t i = 10; i < n; ++i) v[i] = shape == 0 ? (i + 1 == n ? 20 : 50) : shape == 1 ? (i < n / 2 ? 50 : 40) : 50 - (int)((i - 10) * 40 / n);
+        std::vector<int> expect = v; std::sort(expect.begin(), expect.end());
+        tbb::parallel_sort(v.begin(), v.end());
+        if (v != expect) { std::printf("REPRODUCED class=%s parallel_sort of %zu ints (ten ascending, then %s) returned them unsorted\n", cls, n, shape == 0 ? "a plateau with one final drop" : shape == 1 ? "two descending plateaus" : "a descending ramp"); return 0; }
+    }
     for (int t = 0; t < 200; ++t) { size_t n = 400 + 37 * t; std::vector<int> v(n); unsigned s = t * 7919u + 1; for (auto& x : v) { s = s * 1103515245u + 12345u; x = (int)(s >> 16) % (t % 3 ? 1000 : 7); }
         std::vector<int> e = v; std::sort(e.begin(), e.end()); tbb::parallel_sort(v.begin(), v.end()); if (v != e) { std::printf("REPRODUCED class=sort-wrong parallel_sort of %zu pseudo-random ints is not a sorted permutation of its input\n", n); return 0; } }
     std::printf("NOT-REPRODUCED\n"); return 0;
